@@ -411,6 +411,69 @@ def job_index_bounds(T, Fc, asc, a, b):
     return recs
 
 
+def job_source_array(T, Fc, asc, route):
+    """a frame built FROM an existing array (constructor data=, from_data, a slice of a parent): injecting into it changes
+    that frame only -- the array it was built from, and the parent of a slice, stay exactly as they were"""
+    recs = []
+    tag = f"C06:source-array:{(T, Fc, asc, route)}"
+    df, dt, fch1, pre = geom_syms()
+    D = sym_data(T, Fc)
+    before = [[lift(D[i, j]) for j in range(Fc)] for i in range(T)]
+    P1, T1, F1 = uf1('PATH'), uf1('TP'), uf2('FP')
+    pl = dict(fn='source_array', T=T, Fc=Fc, asc=asc, route=route)
+
+    def run():
+        src = D
+        if route == 'ctor':
+            fr = F.Frame(data=src, df=df, dt=dt, fch1=fch1, ascending=asc)
+        elif route == 'from_data':
+            fr = F.Frame.from_data(df, dt, fch1, asc, src)
+        else:
+            parent = F.Frame(data=src.copy(), df=df, dt=dt, fch1=fch1, ascending=asc)
+            src = parent.data
+            fr = parent.get_slice(0, Fc - 1)
+        sig = fr.add_signal(P1, T1, F1, None)
+        return src, fr.data, sig
+    with frame_patches():
+        leaf = core.run_single(run, pre)
+    if leaf.kind == 'exc' or isinstance(leaf.value, BaseException):
+        r, _ = core.check(pre + leaf.pc + leaf.side, timeout_ms=30000)
+        recs.append(q(tag + ':noexc', r, detail=repr(leaf.value)))
+        if r == 'sat':
+            recs.append(cex('C06:source-array:raise', f'building a frame from an array ({route}) and injecting raised {leaf.value!r}', pl, name=tag + ':noexc'))
+        return recs
+    src, data, sig = leaf.value
+    dis = [z3.simplify(lift(src[i, j]) - before[i][j], som=True) != 0 for i in range(T) for j in range(Fc)]
+    dis = [c for c in dis if not z3.is_false(z3.simplify(c))]
+    r, _ = core.check(pre + leaf.side + ([z3.Or(*dis)] if dis else [z3.BoolVal(False)]), timeout_ms=60000)
+    recs.append(q(tag, r, by_solver=len(dis)))
+    if r == 'sat':
+        recs.append(cex('C06:source-array', f'injecting into a frame built from an array ({route}) changed the array it was built from', pl, name=tag))
+    # twin: the frame itself did change
+    r, _ = core.check(pre + leaf.side + [lift(data[0, 0]) != before[0][0]], timeout_ms=30000)
+    recs.append(q(tag + ':twin', r, expect='sat'))
+    return recs
+
+
+def replay_source_array(p):
+    import setigen as stg
+    rng = np.random.default_rng(2)
+    src = rng.normal(10, 1, (4, 16)).astype(np.float32 if p['route'] == 'from_data' else float)
+    keep = src.copy()
+    kw = dict(df=2.0, dt=4.0, fch1=4096.0, ascending=p['asc'])
+    if p['route'] == 'ctor':
+        fr = stg.Frame(data=src, **kw)
+    elif p['route'] == 'from_data':
+        fr = stg.Frame.from_data(2.0, 4.0, 4096.0, p['asc'], src)
+    else:
+        parent = stg.Frame(data=src.copy(), **kw)
+        src, keep = parent.data, parent.data.copy()
+        fr = parent.get_slice(0, 15)
+    fr.add_signal(stg.constant_path(fr.get_frequency(5), 0.0), stg.constant_t_profile(3.0), stg.gaussian_f_profile(6.0), stg.constant_bp_profile(1.0))
+    bad = not np.array_equal(src, keep)
+    return bad, f"route {p['route']}: {int(np.sum(src != keep))} elements of the array the frame was built from changed with the injection"
+
+
 def job_shipped_bounded(kind, asc):
     """the SHIPPED frequency profiles (real factories; exp / sinc / wofz uninterpreted) under a bounding range that need
     not contain the line: bounded = unbounded restricted to the range -- a profile is a pointwise function of
@@ -718,7 +781,7 @@ def job_superpose(T, Fc, asc, smear, bound, tier):
     return recs
 
 
-REPLAYS = {'shipped_bounded': replay_shipped_bounded, 'index_bounds': replay_index_bounds, 'add_signal': inject.replay_add_signal, 'superpose': replay_superpose, 'int_data': replay_int_data, 'failed': replay_failed, 'units_bounding': replay_units_bounding, 'noise_twin': replay_noise_twin}
+REPLAYS = {'source_array': replay_source_array, 'shipped_bounded': replay_shipped_bounded, 'index_bounds': replay_index_bounds, 'add_signal': inject.replay_add_signal, 'superpose': replay_superpose, 'int_data': replay_int_data, 'failed': replay_failed, 'units_bounding': replay_units_bounding, 'noise_twin': replay_noise_twin}
 
 
 def main():
@@ -745,6 +808,8 @@ def main():
                 jobs.append(('job_int_data', (2, 3, asc, bound, smear)))
     for asc in (False, True):
         jobs.append(('job_noise_estimates_twin', (2, 3, asc)))
+        for route_ in ('ctor', 'from_data', 'slice'):
+            jobs.append(('job_source_array', (2, 3, asc, route_)))
         for kind_ in ('box', 'sinc2', 'gaussian', 'lorentzian', 'voigt', 'multiple_gaussian'):
             jobs.append(('job_shipped_bounded', (kind_, asc)))
         for (a_, b_) in ((1, 3), (0, 5), (1, 2)):
